@@ -843,6 +843,10 @@ V("c12-stop-defaulted-with-or", "C12", "R12.6", "dask_array/slicing/_utils.py",
   "            if idx.start in (None, 0) and idx.stop is None and idx.step in (None, 1):\n                return slice(None, None, None)\n            return idx", "            if idx.step in (None, 1):\n                return slice(idx.start or None, idx.stop or None, None)\n            return idx", expect="normalize_slice")
 V("c12-twin-stop-compared-with-none", "C12", "-", "dask_array/slicing/_utils.py",
   "            if idx.start in (None, 0) and idx.stop is None and idx.step in (None, 1):", "            if (idx.start is None or idx.start == 0) and idx.stop is None and (idx.step is None or idx.step == 1):", twin=True)
+V("c22-wrapper-passes-string-for-vector", "C22", "R22.5", "dask_array/_frisky/diag.py",
+  "        self._rust = _rust.Diag2DSimpleLayer(name, np.diag, {}, dep_name, int(nblocks))", "        self._rust = _rust.Diag2DSimpleLayer(name, np.diag, {}, dep_name, str(nblocks))", expect="Diag2DSimpleLayer")
+V("c22-rust-option-parameter-without-default", "C22", "R22.1", "crates/dask-array-python/src/squeeze.rs",
+  "        input_ndim: usize,\n        axis_set: Vec<usize>,\n    ) -> Self {", "        input_ndim: usize,\n        axis_set: Vec<usize>,\n        region: Option<Vec<i64>>,\n    ) -> Self {", expect="SqueezeLayer")
 V("c22-expression-passes-extra-argument-to-wrapper", "C22", "R22.4", "dask_array/io/_from_array.py",
   "            return FromArrayLayer(self._name, self.array, self.chunks, self.operand(\"_region\"))", "            return FromArrayLayer(self._name, self.array, self.chunks, self.operand(\"_region\"), self.operand(\"lock\"))", expect="FromArrayLayer")
 V("c22-wrapper-init-gains-required-parameter", "C22", "R22.4", "dask_array/_frisky/creation.py",
